@@ -78,6 +78,18 @@ CLAIMED = {
         "newline, docstring trimming, imports) are exercised by the example programs only, not decided symbolically; the CLI's argument parsing and exit-code mapping above "
         "format_files, and `--diff` output text, are not covered.",
    ref="DESIGN.md section 0.7, C09"),
+ "C12": dict(
+   cat="model_checking", tech="enum-level symbolic execution of rustc MIR + SMT (z3): generate_cargo_toml with the dependency HashMap as a symbolic map iterated in both directions",
+   text="Solver-based, bounded, ONE mechanism of the property (the first the anchors name): the [dependencies] table of the generated Cargo.toml does not depend on HashMap "
+        "iteration order. ProjectGenerator::generate_cargo_toml is executed from the whole-crate MIR with the four need-flags symbolic and rust_crate_deps a symbolic map of "
+        "0..=2 (thorough 3) entries with symbolic names (string equality / order = equality / order of integer ids, decided by z3), once with the entries yielded in one order and once "
+        "in the reverse order; every pair of jointly satisfiable paths of the two runs must build the identical sequence of dependency lines (`sort_by` is modelled as: every "
+        "permutation ascending in the keys, under the corresponding order constraints). A deviation is replayed by generating the same project in several processes through the "
+        "public ProjectGenerator API and comparing the written Cargo.toml (`replay cargotoml`, dev and release).",
+   note="Kernel-only: the generated Rust files (emitter metadata maps, codegen feature sets), module-declaration order in generate_multi / generate_nested, module collection order "
+        "in the CLI, diagnostics order and formatter output are NOT covered (their HashMaps are keyed by non-string values or live in code that writes files as it goes); two of "
+        "the three round-5 seeded changes for this property are outside this kernel. One genuine defect (dependency lines in iteration order) was repaired in /repo.",
+   ref="DESIGN.md section 0.7, C12"),
  "C13": dict(
    cat="model_checking", tech="bounded model checking of the compiled code (Kani/CBMC, symbolic identifier) + enum-level MIR symbolic execution of the emission plan",
    text="Solver-based, bounded, KERNEL of the property: (a) for EVERY identifier-shaped name of 2..8 bytes the keyword table used for escaping (is_keyword) recognises every "
@@ -140,6 +152,18 @@ CLAIMED = {
    note="Kernel-only: path resolution (which file an import refers to; CLI vs LSP agreement), cycle detection and missing modules are file-system code and are NOT covered; "
         "the visibility rule is only applied to `from m import x` by the code (`import a::b` then `b.x` is not checked) and that gap is not decided here.",
    ref="DESIGN.md section 4, C14"),
+ "C15": dict(
+   cat="model_checking", tech="enum-level symbolic execution of rustc MIR + SMT (z3): generate_cargo_toml over a symbolic dependency map and add_rust_crate over a symbolic crate name",
+   text="Solver-based, bounded, the MANIFEST mechanisms of the property: (a) X-cargo_toml: on every feasible path of generate_cargo_toml (need-flags symbolic; 0..=2, thorough 3, "
+        "`rust::` crates with symbolic names) the [dependencies] table is: incan_stdlib and incan_derive by path (features web / json exactly with axum / serde), the documented pinned "
+        "lines for serde + serde_json, axum + tokio(net), tokio exactly when needed, and one line `name = <its own recorded spec>` for every rust:: crate whose name is none of the "
+        "crates already declared - never a second line for one that is (z3 decides the name equalities), never `*`; (b) X-add_rust_crate: for each of the 19 known-good crates "
+        "exactly its documented pin is recorded, for any other name nothing is recorded and Err(UnknownCrateError) is returned - the invariant (every recorded spec is Some) under "
+        "which (a) is decided. Replay: `replay cargotoml` (six projects through the public ProjectGenerator API, several processes, dev and release).",
+   note="Kernel-only: whether the need-flags agree with what the emitter writes (feature scanners vs use-line insertion), [package] / [[bin]] naming, output-dir validation and the "
+        "CLI's handling of the error are NOT covered; the round-5 seeded change in the serde scanner is outside. Two genuine defects were repaired in /repo (unknown crates "
+        "declared as `*`; dependency order, see C12).",
+   ref="DESIGN.md section 0.7, C15"),
  "C17": dict(
    cat="model_checking", tech="enum-level symbolic execution of rustc MIR + SMT (z3/cvc5): the call-site rewrite in AstLowering::lower_expr and the nominal arm of TypeChecker::types_compatible",
    text="Solver-based, TWO mechanisms of the property: (a) the call rewrite (X-lower_ctor): for `Name(args)` with Name a known struct or capitalised, when a validation hook is "
